@@ -427,7 +427,10 @@ func (m *Machine) tick() (bool, error) {
 		v := m.popValue()
 		switch v := v.(type) {
 		case machine.Asset:
-			m.Balances[a][v] = machine.Zero
+			// saving everything never makes more available than there was
+			if balance, ok := m.Balances[a][v]; !ok || balance.Gt(machine.Zero) {
+				m.Balances[a][v] = machine.Zero
+			}
 		case machine.Monetary:
 			m.Balances[a][v.Asset] = m.Balances[a][v.Asset].Sub(v.Amount)
 		default:
